@@ -271,6 +271,11 @@ def run_one(ch, env):
     for p in sorted(expected, key=tuple):
         got = pio.read_image(p, format=fmt).asarray()
         want = expected[p][::-1] if bottom_up else expected[p]
+        # an opaque RGBA tile and the RGB tile with the same colours are the same picture
+        if got.ndim == 3 and want.ndim == 3 and {got.shape[2], want.shape[2]} == {3, 4}:
+            four = got if got.shape[2] == 4 else want
+            if np.all(four[..., 3] == 255):
+                got, want = got[..., :3], want[..., :3]
         same = got.shape == want.shape and (np.array_equal(got.astype(np.float64), want.astype(np.float64), equal_nan=True) if want.dtype.kind == "f" else np.array_equal(got, want))
         if not same:
             flipped = got.shape == want.shape and (np.array_equal(got[::-1].astype(np.float64), want.astype(np.float64), equal_nan=True) if want.dtype.kind == "f" else np.array_equal(got[::-1], want))
